@@ -10,6 +10,10 @@
 import Cctz.Model.Tz
 import Cctz.Spec.TableSem
 import Cctz.Proofs.LoadSafe
+import Cctz.Proofs.LdExtend
+import Cctz.Proofs.LdLoad
+import Cctz.Proofs.LdBuiltin
+import Cctz.Proofs.LdQuery
 
 namespace Cctz.C12
 open Cctz Cctz.Tz Cctz.Spec
@@ -27,7 +31,10 @@ def builtin_shape_statement : Prop :=
   ∀ off : Int, MemSafe (resetToBuiltinUTC off).flags ∧ TableIdx (resetToBuiltinUTC off).val
 
 /-- on such a table every query stays inside the arrays, for every argument and every hint -/
-def queries_safe_statement : Prop :=
+/- NOTE: this first wording quantifies over unnormalised field values that no C++ civil_second can hold
+   and is FALSE for them (`queries_safe_counterexample`); the property theorem is
+   `queries_safe : queries_safe_statement` below, for valid civil seconds. -/
+def queries_safe_unnormalised_statement : Prop :=
   ∀ (z : Zone), TableIdx z → ∀ (h : Nat) (t : Int) (cs : Fields),
     MemSafe (breakTime z h t).flags ∧ MemSafe (makeTime z h cs).flags ∧ MemSafe (convert z h cs).flags ∧
     MemSafe (nextTransition z t).flags ∧ MemSafe (prevTransition z t).flags
@@ -44,5 +51,93 @@ def constants_statement : Prop :=
   Gen.kSecsPerYear = [31536000, 31622400] ∧
   Gen.kMonthOffsets0 = [-1, 0, 31, 59, 90, 120, 151, 181, 212, 243, 273, 304, 334, 365] ∧
   Gen.kMonthOffsets1 = [-1, 0, 31, 60, 91, 121, 152, 182, 213, 244, 274, 305, 335, 366]
+
+/-! ## proofs -/
+
+theorem constants : constants_statement := by
+  unfold constants_statement
+  decide
+
+theorem extend_no_unset : extend_no_unset_statement :=
+  fun z => Ld.extendTransitions_nu z
+
+theorem builtin_shape : builtin_shape_statement := by
+  intro off
+  have h := Ld.builtin_spec off
+  exact ⟨(Ld.memSafe_iff_safe _).2 h.1, h.2⟩
+
+theorem load_safe : load_safe_statement :=
+  fun cfg b => (Ld.memSafe_iff_safe _).2 (Ld.load_spec cfg b).1
+
+theorem load_shape : load_shape_statement :=
+  fun cfg b z h => (Ld.load_spec cfg b).2 z h
+
+/-! ### `queries_safe_unnormalised_statement` is false as stated
+
+The statement quantifies over every `cs : Fields`, including field values no `civil_second` object
+of the C++ can hold (its constructor normalises).  On an extended zone, `MakeTime` of a civil
+second whose *unnormalised* month field carries more than 400 years — here year 1971, "month"
+4813 on a zone with `last_year_ = 1970` — takes the `TimeLocal` path, whose year shift
+`YearShift(cs, -400)` re-normalises the fields to 1972-01-01, still beyond `last_year_`: the inner
+`MakeTime` asks for a second shift, which the C++ excludes by `assert` and the model reports as
+the `fuel` flag.  No array access is involved. -/
+
+/-- a one-entry extended table with all indices in range -/
+def cexZone : Zone :=
+  { transitions := #[{ unixTime := 0, typeIndex := 0 }],
+    types := #[{ utcOffset := 0, isDst := false, abbrIndex := 0 }],
+    defaultType := 0, abbreviations := [85, 84, 67, 0], futureSpec := [],
+    extended := true, lastYear := some 1970 }
+
+/-- year 1971, month field 4813 (= 1971 + 401 years, January): not a normalised civil second -/
+def cexCs : Fields := ⟨1971, 4813, 1, 0, 0, 0⟩
+
+theorem cexZone_tableIdx : TableIdx cexZone := by
+  refine ⟨by decide, ?_, by decide, fun _ => rfl⟩
+  intro i hi
+  have : i = 0 := by
+    have : cexZone.transitions.size = 1 := rfl
+    omega
+  subst this
+  decide
+
+theorem cex_makeTime_fuel : (makeTime cexZone 0 cexCs).flags.fuel = true := by decide +kernel
+
+theorem queries_safe_counterexample : ¬ queries_safe_unnormalised_statement := by
+  intro h
+  have h2 := (h cexZone cexZone_tableIdx 0 0 cexCs).2.1.2.2
+  rw [cex_makeTime_fuel] at h2
+  cases h2
+
+/-- the same with the missing hypothesis made explicit: `MakeTime` and `convert` are given a
+valid (normalised) civil second, which is all a `civil_second` of the C++ can be.  `BreakTime`,
+`NextTransition` and `PrevTransition` need nothing beyond `TableIdx`; no sortedness of the table
+is needed for any of the five. -/
+def queries_safe_statement : Prop :=
+  ∀ (z : Zone), TableIdx z → ∀ (h : Nat) (t : Int) (cs : Fields),
+    MemSafe (breakTime z h t).flags ∧
+    (Spec.Valid cs → MemSafe (makeTime z h cs).flags ∧ MemSafe (convert z h cs).flags) ∧
+    MemSafe (nextTransition z t).flags ∧ MemSafe (prevTransition z t).flags
+
+theorem queries_safe : queries_safe_statement := by
+  intro z hz h t cs
+  refine ⟨(Ld.memSafe_iff_safe _).2 (Ld.breakTime_safe z hz h t), fun hcs => ⟨?_, ?_⟩,
+    (Ld.memSafe_iff_safe _).2 (Ld.nextTransition_safe z hz t),
+    (Ld.memSafe_iff_safe _).2 (Ld.prevTransition_safe z hz t)⟩
+  · exact (Ld.memSafe_iff_safe _).2 (Ld.makeTime_safe z hz h cs hcs)
+  · exact (Ld.memSafe_iff_safe _).2 (Ld.convert_safe z hz h cs hcs)
+
+/-- the hypotheses of `queries_safe` are satisfiable on a non-trivial value: the extended
+zone above and a valid civil second beyond `last_year_` (so the `TimeLocal` path is taken) -/
+example : TableIdx cexZone ∧ Spec.Valid ⟨2400, 2, 29, 23, 59, 59⟩ ∧
+    (makeTimeCore cexZone 0 ⟨2400, 2, 29, 23, 59, 59⟩).val.1 = .inr 2 :=
+  ⟨cexZone_tableIdx, by decide, by decide +kernel⟩
+
+/-- `load_shape` is not vacuous: a minimal version-1 TZif file (one type, no transitions) loads,
+and the table gets its two sentinels -/
+example : (match (load {} ([84, 90, 105, 102, 0] ++ List.replicate 15 0 ++
+      [0,0,0,0, 0,0,0,0, 0,0,0,0, 0,0,0,0, 0,0,0,1, 0,0,0,4] ++ [0,0,0,0, 0, 0] ++ [85, 84, 67, 0])).val with
+    | .ok z => z.transitions.size == 2
+    | _ => false) = true := by decide +kernel
 
 end Cctz.C12
